@@ -960,6 +960,7 @@ func (n *node) Kill(pid gen.PID) error {
 	}
 
 	p := value.(*process)
+	lib.VerifPoint("kill.swap", p.pid.ID)
 	state := atomic.SwapInt32(&p.state, int32(gen.ProcessStateZombee))
 	switch state {
 	case int32(gen.ProcessStateWaitResponse), int32(gen.ProcessStateRunning):
@@ -970,6 +971,7 @@ func (n *node) Kill(pid gen.PID) error {
 		return nil
 	}
 
+	lib.VerifPoint("kill.term", p.pid.ID)
 	old := atomic.SwapInt32(&p.state, int32(gen.ProcessStateTerminated))
 	if old == int32(gen.ProcessStateTerminated) {
 		return nil
@@ -1747,8 +1749,11 @@ func (n *node) spawn(factory gen.ProcessFactory, options gen.ProcessOptionsExtra
 }
 
 func (n *node) unregisterProcess(p *process, reason error) {
+	lib.VerifPoint("unreg.enter", p.pid.ID)
 	n.processes.Delete(p.pid)
+	lib.VerifPoint("unreg.deleted", p.pid.ID)
 	n.RouteTerminatePID(p.pid, reason)
+	lib.VerifPoint("unreg.pid.drained", p.pid.ID)
 
 	if p.application != system.Name {
 		// do not count system app processes
@@ -1758,12 +1763,14 @@ func (n *node) unregisterProcess(p *process, reason error) {
 
 	if p.registered.Load() {
 		n.names.Delete(p.name)
+		lib.VerifPoint("unreg.name.deleted", p.pid.ID)
 		pname := gen.ProcessID{Name: p.name, Node: n.name}
 		n.RouteTerminateProcessID(pname, reason)
 	}
 
 	for _, a := range p.aliases {
 		n.aliases.Delete(a)
+		lib.VerifPoint("unreg.alias.deleted", p.pid.ID)
 		n.RouteTerminateAlias(a, reason)
 	}
 
@@ -1889,6 +1896,7 @@ func (n *node) unregisterEvent(name gen.Atom, pid gen.PID) error {
 	}
 
 	n.events.Delete(ev)
+	lib.VerifPoint("unreg.event.deleted", pid.ID)
 	n.RouteTerminateEvent(ev, gen.ErrUnregistered)
 	return nil
 }
